@@ -75,7 +75,7 @@ func exchange(rw io.ReadWriter, mine, theirs []byte) error {
 
 type caseAcc struct {
 	Force  bool      `json:"force"`
-	Dialer string    `json:"dialer"` // plain | mse1 | mse2 | mse3 | mse3-unknown-key
+	Dialer string    `json:"dialer"`  // plain | mse1 | mse2 | mse3 | mse3-unknown-key
 	IAMode string    `json:"ia_mode"` // ia: BT handshake travels as the MSE initial payload; after: sent after the MSE handshake
 	PadA   int       `json:"padA"`
 	PadB   int       `json:"padB"`
@@ -88,10 +88,10 @@ type caseAcc struct {
 func (c *caseAcc) String() string { return fmt.Sprintf("%+v", *c) }
 
 type accOutcome struct {
-	dial, acc    sideRes
-	accCipher    uint32
-	dialGotPeer  bool
-	Hang         bool
+	dial, acc      sideRes
+	accCipher      uint32
+	dialGotPeer    bool
+	Hang           bool
 	abData, baData []byte
 }
 
